@@ -359,6 +359,10 @@ func (p *Program) verifyFunction(key string) *FuncResult {
 		}
 		// contract header sanity: parameter names must match (contract-stale otherwise)
 		if fc != nil {
+			if fn.Parent() != nil && len(fc.ParamNames) == len(fn.Params)+1 {
+				// a closure is keyed by its enclosing method; the receiver in the header is not a parameter
+				fc.ParamNames, fc.ParamTypes = fc.ParamNames[1:], fc.ParamTypes[1:]
+			}
 			if len(fc.ParamNames) != len(fn.Params) {
 				res.Err = fmt.Errorf("contract-stale: %s header has %d parameters, function has %d", key, len(fc.ParamNames), len(fn.Params))
 				return
